@@ -126,7 +126,7 @@ func TestVerifC01(t *testing.T) {
 	var cfgs []c01Cfg
 	for _, root := range roots {
 		for _, ap := range vAssetPaths(root) {
-			if !vExtraWanted(root, ap, "x_video_trex_vs_tfhd", "x_two_video_grids", "x_thumbs_1s_before_text", "x_text_short_last", "x_text_both_sizes") {
+			if !vExtraWanted(root, ap, "x_video_trex_vs_tfhd", "x_two_video_grids", "x_thumbs_1s_before_text", "x_text_short_last", "x_text_both_sizes", "x_video_frags_trex_only", "x_video_frags") {
 				continue
 			}
 			if vTimeOffsetAsset(ap) {
@@ -252,6 +252,20 @@ func c01RunCfg(rep *vh.Report, c c01Cfg, quick bool) {
 			rep.Hit("C01.b")
 			if sg.Start() != ref.start {
 				viol("C01.b", "tfdt", fmt.Sprintf("n=%d: tfdt=%d, want floor(n/N)*loop + vodStart = %d", n, sg.Start(), ref.start), url)
+			}
+			// every further fragment of the segment keeps its distance to the segment start (the decode times of
+			// its samples follow from its own tfdt, not from the first fragment's)
+			if vsg, err := vref.ParseSegment(vod.Raw, r.Init.Trex); err == nil && (len(vsg.Frags) > 1 || len(sg.Frags) > 1) {
+				if len(vsg.Frags) != len(sg.Frags) {
+					viol("C01.c", "fragment-count", fmt.Sprintf("n=%d: %d fragments, VoD segment %s has %d", n, len(sg.Frags), vod.File, len(vsg.Frags)), url)
+				} else {
+					for fi := range sg.Frags {
+						if g, w := sg.Frags[fi].Tfdt-sg.Start(), vsg.Frags[fi].Tfdt-vsg.Start(); g != w {
+							viol("C01.b", "fragment-tfdt", fmt.Sprintf("n=%d: fragment %d starts %d ticks after the segment start, in VoD segment %s it starts %d ticks after it", n, fi, g, vod.File, w), url)
+							break
+						}
+					}
+				}
 			}
 			// (c) samples unchanged
 			rep.Hit("C01.c")
